@@ -40,7 +40,7 @@
      owns m s           m is consistent with its owner flag (a text has a block of its own iff the object owns
                         its texts and the text is not empty) and all its blocks are pairwise distinct and live in s
      sane m             scheme and IPvFuture text are not present-and-empty; true of every parsed object and
-                        kept by every operation (C13_parsed_sane, C13_*_sane)
+                        kept by every operation (C13_parsed_sane, C13_sane_is_kept)
      whole m s          NoDup (muri_blocks m), all of them live in s, and (a consequence) all text_blocks m live
      apart m1 m2        no block of m1 is a block of m2
      release_all l s    the ledger after free_members of the objects of l, in order
@@ -63,10 +63,11 @@
    - [owns m s] (hence text_blocks m = [] for a borrowed m) and [wf s] in the ledger theorems;
    - [sane m] for the normalisation of a borrowed object: a hypothesis of the reused ledger theorem
      normalize_m_spec.  It is needed there for the failure exits (normalize_m_insane_refuted uses FailOnce);
-     whether the NoFault statement holds without it is not settled here.
-   Still not proved:
-   - C12_normalize_borrowed without "a borrowed object records no text block" (text_blocks m = [] in mwf);
-     for make-owner that hypothesis is dropped in C12_make_owner_any_blocks.
+     whether the NoFault statement holds without it is not settled here (the two witnesses of that
+     refutation behave well under NoFault: C12_insane_nofault_examples).
+   The hypothesis "a borrowed object records no text block" (the fourth clause of mwf, used by C12_make_owner
+   and C12_normalize_borrowed) was forced by the proof technique, not by truth: C12_make_owner_any_blocks and
+   C12_normalize_any_blocks state the same conclusions with mwf_host only.
    Not a theorem because it is false: "normalisation releases nothing".  It releases the list nodes (and, for
    an owned object, the text blocks) of the dot segments it removes (C12_normalize_releases_nodes); make-owner
    does release nothing (C12_make_owner_releases_nothing). *)
@@ -403,6 +404,15 @@ Theorem C12_make_owner_any_blocks : forall csize m s, nofault s -> mwf_host m ->
 Proof. exact make_owner_any_blocks. Qed.
 Print Assumptions C12_make_owner_any_blocks.
 
+(* likewise C12_normalize_borrowed: any non-zero mask, a borrowed object that may record blocks *)
+Theorem C12_normalize_any_blocks : forall csize mask m s, nofault s -> mwf_host m -> m_owner m = false -> mask <> 0 ->
+  exists m' s', normalize_m csize mask m s = (URI_SUCCESS, m', s')
+    /\ erase m' = normalize mask (erase m)
+    /\ m_owner m' = true /\ all_owned m' = true /\ depends_on_input m' = false
+    /\ mwf m' /\ fresh_blocks s s' m' /\ nofault s'.
+Proof. exact normalize_any_blocks. Qed.
+Print Assumptions C12_normalize_any_blocks.
+
 (* ---- what is released ------------------------------------------------------------------------------- *)
 (* a successful make-owner of a borrowed object releases nothing (any plan): every block that was live is
    still live, and the result holds every node and address block the input held *)
@@ -422,4 +432,29 @@ Example C12_normalize_releases_nodes :
     /\ muri_blocks m' = [0; 3; 2; 5]%nat /\ live_ids s2 = [5; 3; 2; 0]%nat
   | _ => False
   end.
+Proof. vm_compute. repeat split. Qed.
+
+(* the two theorems above are not vacuous: a borrowed object whose scheme and path segment record the blocks 7
+   and 8 (not mwf: text_blocks m <> []); make-owner and normalisation copy the texts into fresh blocks and
+   forget 7 and 8 *)
+Example C12_recorded_blocks_nonvacuous :
+  let m := {| m_scheme := {| t_val := Some [83]; t_blk := Some 7%nat |}; m_userInfo := mt_none; m_hostText := mt_none;
+              m_ip4 := None; m_ip6 := None; m_ipFuture := mt_none; m_portText := mt_none;
+              m_segs := [{| sg_text := [97]; sg_blk := Some 8%nat; sg_node := 0%nat |}]; m_query := mt_none;
+              m_fragment := mt_none; m_abs := false; m_owner := false |} in
+  text_blocks m = [7; 8]%nat
+  /\ (let '(rc, m', s') := make_owner_m 1 m (ms_init NoFault) in
+      rc = URI_SUCCESS /\ text_blocks m' = [0; 1]%nat /\ depends_on_input m' = false)
+  /\ (let '(rc, m', s') := normalize_m 1 63 m (ms_init NoFault) in
+      rc = URI_SUCCESS /\ text_blocks m' = [0; 1]%nat /\ depends_on_input m' = false
+      /\ scheme (erase m') = Some [115]).
+Proof. vm_compute. repeat split. Qed.
+
+(* the two insane witnesses of C13's refutation (present-but-empty scheme, present-but-empty IPvFuture text),
+   normalised under NoFault: success, one block, live, no bad release, all text owned *)
+Example C12_insane_nofault_examples :
+  (let '(rc, m', s') := normalize_m 1 63 w_empty_scheme (ms_init NoFault) in
+   rc = URI_SUCCESS /\ muri_blocks m' = [0]%nat /\ live_ids s' = [0]%nat /\ bad_frees s' = 0%nat /\ all_owned m' = true)
+  /\ (let '(rc, m', s') := normalize_m 1 63 w_empty_future (ms_init NoFault) in
+      rc = URI_SUCCESS /\ muri_blocks m' = [0]%nat /\ live_ids s' = [0]%nat /\ bad_frees s' = 0%nat /\ all_owned m' = true).
 Proof. vm_compute. repeat split. Qed.
